@@ -211,6 +211,7 @@ type LockInfo struct {
 	Unlocks  []ssa.Instruction // explicit (non-deferred) unlocks
 	Paired   bool
 	NLocks   int
+	Shared   bool // the lock is taken with RLock: readers run concurrently, writes under it are unprotected
 }
 
 // LockOf finds the mutex discipline of fn (first Lock call on a struct-field mutex).
@@ -241,7 +242,7 @@ func LockOf(fn *ssa.Function) *LockInfo {
 			if _, isCall := in.(*ssa.Call); isCall {
 				nlocks++
 				if li == nil {
-					li = &LockInfo{Fn: fn, Lock: in, Owner: owner, Field: f}
+					li = &LockInfo{Fn: fn, Lock: in, Owner: owner, Field: f, Shared: callee.Name() == "RLock"}
 				}
 			}
 		case "Unlock", "RUnlock":
@@ -290,6 +291,11 @@ func LockOf(fn *ssa.Function) *LockInfo {
 	return li
 }
 
+// HoldsExclusive reports whether in executes with the lock held exclusively (Lock, not RLock).
+func (li *LockInfo) HoldsExclusive(in ssa.Instruction) bool {
+	return li != nil && !li.Shared && li.Holds(in)
+}
+
 // Holds reports whether instruction in (of li.Fn) executes with the lock held.
 func (li *LockInfo) Holds(in ssa.Instruction) bool {
 	if li == nil || !li.Paired || in.Parent() != li.Fn || !InstrDominates(li.Lock, in) {
@@ -318,10 +324,10 @@ func (li *LockInfo) Holds(in ssa.Instruction) bool {
 // ReachCfg configures a library-only call-graph traversal.
 type ReachCfg struct {
 	Roots     []*ssa.Function
-	BlockNode func(fn *ssa.Function) bool                    // do not enter these frames
-	BlockEdge func(e *callgraph.Edge) bool                   // do not follow these call edges
-	OnlyLib   func(fn *ssa.Function) bool                    // restrict to library functions
-	Parent    map[*ssa.Function]*callgraph.Edge              // filled: BFS tree for witnesses
+	BlockNode func(fn *ssa.Function) bool       // do not enter these frames
+	BlockEdge func(e *callgraph.Edge) bool      // do not follow these call edges
+	OnlyLib   func(fn *ssa.Function) bool       // restrict to library functions
+	Parent    map[*ssa.Function]*callgraph.Edge // filled: BFS tree for witnesses
 }
 
 // Reach computes the set of functions reachable from the roots.
